@@ -57,7 +57,8 @@ OK(e) ==
                                               IF \E c \in ch : c[1] = ad THEN (CHOOSE c \in ch : c[1] = ad)[2] ELSE Canary(ad)]
               IN CvtLane(e.t, SubSeq(e.a, i * nb + 1, (i + 1) * nb), e.u, Seq1(got, nu))
     [] e.k = "ln" /\ e.op \in {"broadcast", "ctor_bcast"} -> \A i \in 0 .. n - 1 : SubSeq(e.r, i * nb + 1, (i + 1) * nb) = SubSeq(e.a, 1, nb)
-    [] e.k = "ln" /\ e.op = "get" -> SubSeq(e.r, 1, e.w) = Reg(e)
+    [] e.k = "ln" /\ e.op \in {"get", "ctor_list"} -> SubSeq(e.r, 1, e.w) = Reg(e)                   \* lane i <-> i-th element / i-th constructor argument
+    [] e.k = "ln" /\ e.op = "bool_ctor_list" -> SubSeq(e.r, 1, n) = [i \in 1 .. n |-> IF e.a[i] # 0 THEN 1 ELSE 0]
     [] OTHER -> FALSE
 \* the contract of the access: inside the page; aligned forms at aligned addresses
 InContract(e) == e.k \in {"ln"} \/ (e.imm >= 0 /\ (~IsAligned(e.op) \/ e.imm % e.w = 0))
